@@ -30,7 +30,7 @@ CHUNK = 4
 
 
 def budget(tier):
-    return 400 if tier == "quick" else 10000
+    return 800 if tier == "quick" else 10000
 
 
 def build(seed, tier):
